@@ -145,7 +145,20 @@ fn data_strategy(tier: Tier) -> BoxedStrategy<Vec<u8>> {
             }
             v
         });
+    let long_line = (1500usize..6000, prop::sample::select(vec![&b"$NetBSD$"[..], b"$NetBSD", b"$NetBS", b" $NetBSD: x $ "]), 0usize..300, any::<bool>())
+        .prop_map(|(n, marker, tail, nl)| {
+            // one line of several KiB with the marker deep inside (and text after it)
+            let mut v: Vec<u8> = b"short first line\n".to_vec();
+            v.extend((0..n).map(|i| b"abcdefghij"[i % 10]));
+            v.extend_from_slice(marker);
+            v.extend((0..tail).map(|i| b"0123456789"[i % 10]));
+            if nl {
+                v.extend_from_slice(b"\nlast line\n");
+            }
+            v
+        });
     prop_oneof![
+        1 => long_line,
         // lengths concentrated on block boundaries +- 1
         4 => (prop_oneof![20 => 0usize..18, 1 => 18usize..BOUNDARY_LENGTHS.len()], 0usize..3, any::<u8>()).prop_flat_map(move |(i, d, fill)| {
             let n = (BOUNDARY_LENGTHS[i] + d).saturating_sub(1);
